@@ -24,7 +24,7 @@ RULE = ("cases: (DAG code, target bitmask); (PDAG code, target bitmask) for pdag
         ' Also: relabelled embeddings, named shapes, weighted canonical chains and chains plus chords, graphs built from utils.chain_graph and edited in place, frozenset targets, check_chain=False, debug=True, repeat after the caller overwrote the result.')
 ASSUMPTIONS = ["brute-force oracle correct (counts self-checked)"]
 EXHAUSTIVE = {"quick": True, "thorough": True}
-SOFT_LIMIT = {"quick": 240, "thorough": 1700}
+SOFT_LIMIT = {"quick": 1200, "thorough": 5400}      # generous wall-clock watchdogs (a loaded machine must not cut a workload short); normal run times are in the evidence
 REQUIRED_FUNCS = ["sempler/utils.py:imec", "sempler/utils.py:dag_to_icpdag", "sempler/utils.py:pdag_to_icpdag"]
 REQUIRED_COUNTERS = {"quick": {"imec:proper-subclass": 500, "picpdag:valueerror-expected": 500, "picpdag:value-expected": 500, "imec:chain-shortcut": 20},
                      "thorough": {"imec:proper-subclass": 5000, "picpdag:valueerror-expected": 500, "picpdag:value-expected": 500, "imec:chain-shortcut": 20}}
@@ -34,6 +34,28 @@ N = {"quick": {"dag5": 2500, "weighted": 800, "sampled": 500, "chain_max": 10, "
 
 def gen(tier, seed, shard, nshards):
     n = N[tier]
+    # the families that feed the required counters come first (a watchdog that cuts a run short must not starve them)
+    # pdag_to_icpdag
+    idx = 0
+    for p in (1, 2, 3, 4):
+        for code in range(_gc.pdag_codes(p)):
+            if idx % nshards == shard:
+                if p < 4 or n["pdagI4"] >= 16:
+                    Is = range(1 << p)
+                else:
+                    rng = util.rng_for("C10", seed, "pI", p, code)
+                    Is = sorted(set(int(x) for x in rng.integers(0, 1 << p, n["pdagI4"])))
+                for I in Is:
+                    yield "pdagI", {"p": p, "code": code, "I": int(I)}
+            idx += 1
+    k = 0
+    for p in range(1, n["chain_max"] + 1):
+        rng = util.rng_for("C10", seed, "chain", p)
+        for t in range(n["chain_I"]):
+            I = int(rng.integers(0, 1 << p))
+            if k % nshards == shard:
+                yield "chainI", {"p": p, "I": I}
+            k += 1
     idx = 0
     for p in ((1, 2, 3, 4) if tier == "quick" else (1, 2, 3, 4, 5)):
         for code in G.all_dag_codes(p):
@@ -77,27 +99,6 @@ def gen(tier, seed, shard, nshards):
                 if sidx % nshards == shard:
                     yield "shape-dagI", {"p": pp, "shape": name, "rep": rep}
                 sidx += 1
-    # pdag_to_icpdag
-    idx = 0
-    for p in (1, 2, 3, 4):
-        for code in range(_gc.pdag_codes(p)):
-            if idx % nshards == shard:
-                if p < 4 or n["pdagI4"] >= 16:
-                    Is = range(1 << p)
-                else:
-                    rng = util.rng_for("C10", seed, "pI", p, code)
-                    Is = sorted(set(int(x) for x in rng.integers(0, 1 << p, n["pdagI4"])))
-                for I in Is:
-                    yield "pdagI", {"p": p, "code": code, "I": int(I)}
-            idx += 1
-    k = 0
-    for p in range(1, n["chain_max"] + 1):
-        rng = util.rng_for("C10", seed, "chain", p)
-        for t in range(n["chain_I"]):
-            I = int(rng.integers(0, 1 << p))
-            if k % nshards == shard:
-                yield "chainI", {"p": p, "I": I}
-            k += 1
     for k in range(n["weighted"]):
         if k % nshards == shard:
             rng = util.rng_for("C10", seed, "w", k)
